@@ -2,6 +2,10 @@ import Mdsort.Proofs.Lex
 import Mdsort.Proofs.World
 import Mdsort.Proofs.ConfErrors
 import Mdsort.Proofs.ConfRT5
+import Mdsort.Proofs.MainText
+import Mdsort.Proofs.MainTextMacros
+import Mdsort.Proofs.MainTextLex
+import Mdsort.Proofs.MainTextLexTree
 
 /-!
 # C14 - a configuration is accepted or rejected as a whole, and the parser is total
@@ -246,6 +250,171 @@ example : Spec.ConfOK (fun _ => true)
              (.and 1 (.leaf (.exec 1 true true [[99, 97, 116]]))
                (.attBlock 1 (.block 1 (.mtch 1 (.leaf (.old 1)) (.leaf (.exec 1 false false [[108, 112, 114]])))))))))) },
      { paths := [stdinStr], tree := .block 1 (.mtch 1 (.leaf (.command 1 [[116]])) (.leaf (.reject 1))) }] = true := by
+  decide +kernel
+
+/-! ## The whole program from the configuration TEXT (`Model.mainText`, Model/MainText.lean)
+
+`mainText env orc rxOk defs confText files input` is `main` of mdsort.c after `getopt`: the `-D` options
+`defs` enter the macro table, `parseConfig` reads the bytes `confText` of the configuration file, and the
+loop of `mainP` runs over the trees it built.  It is compared with the real binary along the trace of real
+runs (`M conformtext`, tools/props/c14.py), next to `mainP` on the trees the real parser built. -/
+
+/-- Rejected as a whole, from the text: for EVERY byte string `parseConfig` rejects - wherever the
+defect is, whatever valid blocks surround it - every environment, population `files`, standard input
+and fault plan, the run opens (and closes) the configuration file and issues no other call: no maildir
+is opened, no message examined, no command run, no file changed; the exit status is 1, in stdin mode
+75.  With the `C14_error_*` theorems: a configuration with one of the listed defects anywhere leaves
+every maildir untouched. -/
+theorem C14_reject_whole_text (env : PEnv) (orc : EvalOracles) (rxOk : Pat → Bool) (defs : List (Bytes × Bytes))
+    (confText : Bytes) (files : Files) (input : Bytes) (line : Nat) (w : World) (plan : Plan)
+    (h : parseConfig env.home defs rxOk confText = .error line) :
+    let p := mainText env orc rxOk defs confText files input
+    let r := runPlan plan p w 0 []
+    r.1.2.error = true ∧ r.1.1 = (if env.stdinMode then 75 else 1) ∧
+    (Proofs.callsOf plan p w = [.fopen env.confpath] ∨
+     ∃ hd, Proofs.callsOf plan p w = [.fopen env.confpath, .fclose hd]) :=
+  Proofs.MainText.mainText_rejected env orc rxOk defs confText files input line w plan h
+
+/-- Refused `-D` options (`-D path=...`, the same name twice): the run ends in the option loop - no
+call at all, not even the configuration file is opened - with exit status 1 also in stdin mode (the
+`-` operand has not been seen when `main` gives up). -/
+theorem C14_reject_defs_text (env : PEnv) (orc : EvalOracles) (rxOk : Pat → Bool) (defs : List (Bytes × Bytes))
+    (confText : Bytes) (files : Files) (input : Bytes) (w : World) (plan : Plan)
+    (h : parseConfig env.home defs rxOk confText = .invalidDefs) :
+    let p := mainText env orc rxOk defs confText files input
+    (runPlan plan p w 0 []).1.1 = 1 ∧ (runPlan plan p w 0 []).1.2.error = true ∧ Proofs.callsOf plan p w = [] :=
+  Proofs.MainText.mainText_invalidDefs env orc rxOk defs confText files input w plan h
+
+/-- Accepted text runs its tree: when `parseConfig` accepts, its blocks are trees of the evaluator (no
+empty block: `confBlocksOf` succeeds and loses nothing, `toPBlocks conf = blocks`) and `mainText` IS
+`mainP` with verdict "accepted" over exactly these trees - as an equality of programs, so every theorem
+about `mainP` (C01-C05, C09, C12, C13, C17) holds for the run from the text. -/
+theorem C14_accepted_runs_its_tree (env : PEnv) (orc : EvalOracles) (rxOk : Pat → Bool) (defs : List (Bytes × Bytes))
+    (confText : Bytes) (files : Files) (input : Bytes) (blocks : List PBlock)
+    (h : parseConfig env.home defs rxOk confText = .ok blocks) :
+    ∃ conf, confBlocksOf blocks = some conf ∧ Proofs.MainText.toPBlocks conf = blocks ∧
+      mainText env orc rxOk defs confText files input = mainP env orc true conf files input :=
+  Proofs.MainText.mainText_accepted env orc rxOk defs confText files input blocks h
+
+/-- `parseConfig` has no other outcome (`C14_parser_total` excludes `.fuel`), so the three theorems above
+cover every byte string. -/
+theorem C14_text_outcomes (home : Bytes) (defs : List (Bytes × Bytes)) (rxOk : Pat → Bool) (confText : Bytes) :
+    (∃ blocks, parseConfig home defs rxOk confText = .ok blocks) ∨ (∃ line, parseConfig home defs rxOk confText = .error line) ∨
+    parseConfig home defs rxOk confText = .invalidDefs := by
+  have := (C14_parser_total home defs rxOk confText).1
+  cases h : parseConfig home defs rxOk confText with
+  | ok b => exact Or.inl ⟨b, rfl⟩
+  | error l => exact Or.inr (Or.inl ⟨l, rfl⟩)
+  | invalidDefs => exact Or.inr (Or.inr rfl)
+  | fuel => exact absurd h this
+
+/-- The property in one statement, for every byte string, environment, population and fault plan: a run
+that issues any call besides opening and closing the configuration file comes from a configuration that
+was accepted and all of whose blocks are well formed (`Spec.blockOK`: the shape of mdsort.conf(5) with
+every side condition of `C14_error_classes_*`).  Contrapositive: a configuration with a defect anywhere
+leaves every maildir untouched. -/
+theorem C14_well_formed_or_untouched (env : PEnv) (orc : EvalOracles) (rxOk : Pat → Bool) (defs : List (Bytes × Bytes))
+    (confText : Bytes) (files : Files) (input : Bytes) (w : World) (plan : Plan) :
+    (∃ blocks, parseConfig env.home defs rxOk confText = .ok blocks ∧ ∀ b ∈ blocks, Spec.blockOK rxOk b = true) ∨
+    (∀ c ∈ Proofs.callsOf plan (mainText env orc rxOk defs confText files input) w,
+      c = .fopen env.confpath ∨ ∃ h, c = .fclose h) := by
+  rcases C14_text_outcomes env.home defs rxOk confText with ⟨b, hb⟩ | ⟨l, hl⟩ | hd
+  · exact Or.inl ⟨b, hb, C14_accepted_well_formed _ _ _ _ _ hb⟩
+  · right
+    have h3 := Proofs.MainText.mainText_rejected env orc rxOk defs confText files input l w plan hl
+    simp only at h3
+    intro c hc
+    rcases h3.2.2 with h | ⟨hd, h⟩
+    · rw [h] at hc
+      simp only [List.mem_singleton] at hc
+      exact Or.inl hc
+    · rw [h] at hc
+      simp only [List.mem_cons, List.not_mem_nil, or_false] at hc
+      rcases hc with rfl | rfl
+      · exact Or.inl rfl
+      · exact Or.inr ⟨hd, rfl⟩
+  · right
+    have h3 := Proofs.MainText.mainText_invalidDefs env orc rxOk defs confText files input w plan hd
+    simp only at h3
+    intro c hc
+    rw [h3.2.2] at hc
+    cases hc
+
+/-- Non-vacuity: a rejected text with valid blocks around the defect, an accepted text, refused options
+(`home` = `/h`). -/
+example :
+    Proofs.Conf.isErrorAt 3 (parseConfig [47, 104] [] (fun _ => true)
+      "maildir \"~/a\" { match all move \"b\" }\nstdin { match all discard }\nmaildir \"c\" { match all exec body \"x\" }".toUTF8.toList) = true ∧
+    Proofs.Conf.isOkNonempty (parseConfig [47, 104] [] (fun _ => true)
+      "maildir \"~/a\" { match all move \"b\" }\nstdin { match all discard }".toUTF8.toList) = true ∧
+    Proofs.MainText.mt_isInvalidDefs (parseConfig [47, 104] [("path".toUTF8.toList, [120])] (fun _ => true)
+      "stdin { match all discard }".toUTF8.toList) = true := by
+  decide +kernel
+
+/-! ## Diagnostics of the lexer as error classes -/
+
+/-- Every diagnostic of the lexer is a diagnostic of the parser: at every position where the parser reads
+a token (`peek` without lookahead, in the lexer modes of that position) a lexer call that reports a
+diagnostic ends the parse with an error - there is no handler, an error passes through every
+continuation.  (`parseConfig` reads tokens only through `peek`.) -/
+theorem C14_error_lexer_diagnostic (cx : PCtx) (pf sf : Bool) (s : ParseSt) (hla : s.la = none)
+    (herr : (lex1 pf sf s.afterMacro s.rest).errors > 0) :
+    (∃ s', peek cx pf sf s = .err (lexErrLine cx.nl s.afterMacro s.rest) s') ∧
+    (∀ {α β : Type} (m : PM α) (f : α → PM β) (s0 s1 : ParseSt) (l : Nat), m s0 = .err l s1 → (m >>= f) s0 = .err l s1) :=
+  ⟨Proofs.MainText.mt_peek_lex_error cx pf sf s hla herr, fun m f s0 s1 l h => Proofs.MainText.mt_bind_err m f s0 s1 l h⟩
+
+/-- The lexer-level classes, in every mode and at every position of every file: a pattern token carrying
+both `l` and `u`, and a time unit that is a prefix of several units (`scalar none`), come with a
+diagnostic; so does an integer literal of 2^32 or more (`C14_int_literals`), and an integer token never
+exceeds 32 bits otherwise. -/
+theorem C14_error_classes_lexer (pf sf am : Bool) (input : Bytes) :
+    (∀ src i, (lex1 pf sf am input).tok = .pattern src i true true → (lex1 pf sf am input).errors > 0) ∧
+    ((lex1 pf sf am input).tok = .scalar none → (lex1 pf sf am input).errors > 0) ∧
+    (∀ n, (lex1 pf sf am input).tok = .int n → (lex1 pf sf am input).errors > 0 ∨ n < 2 ^ 32) :=
+  ⟨fun src i h => Proofs.MainText.mt_lex_pattern_lu pf sf am input src i h,
+   fun h => Proofs.MainText.mt_lex_unit_ambiguous pf sf am input h,
+   fun n h => Proofs.MainText.mt_lex_int_bound pf sf am input n h⟩
+
+/-- The lexer-level classes as a statement about whole files: for EVERY byte string `parseConfig` accepts,
+no pattern anywhere in its trees carries both `l` and `u`, and every age is `n * unit` for an `n` below
+2^32 and one of the seven units (an ambiguous or unknown unit, or an integer that does not fit, never
+gets into a tree).  So a configuration in which the parser reads such a token - in any block, at any
+depth, next to whatever else - is not accepted. -/
+theorem C14_error_classes_tokens (home : Bytes) (defs : List (Bytes × Bytes)) (rxOk : Pat → Bool) (input : Bytes) (e : Expr)
+    (h : Proofs.Conf.AcceptedNode home defs rxOk input (.leaf e)) :
+    (∀ l p, e = .body l p → (p.lcase && p.ucase) = false) ∧
+    (∀ l ns p, e = .header l ns p → (p.lcase && p.ucase) = false) ∧
+    (∀ l f c age, e = .date l f c age →
+      ∃ n v, age = n * v ∧ n < 2 ^ 32 ∧ v ∈ [1, 60, 3600, 86400, 604800, 2592000, 31536000]) := by
+  have hc := Proofs.MainText.accepted_leaf_clean h
+  refine ⟨fun l p he => by subst he; exact hc, fun l ns p he => by subst he; exact hc, fun l f c age he => ?_⟩
+  subst he
+  exact hc
+
+/-- Non-vacuity: an accepted file with a `date` leaf and a `body` leaf (`2 w` = 2 * 604800). -/
+example :
+    (∃ l f c age, Proofs.Conf.AcceptedNode [] [] (fun _ => true)
+      "maildir \"q\" { match date > 2 w and body /a/il break }".toUTF8.toList (.leaf (.date l f c age))) ∧
+    (∃ l p, Proofs.Conf.AcceptedNode [] [] (fun _ => true)
+      "maildir \"q\" { match date > 2 w and body /a/il break }".toUTF8.toList (.leaf (.body l p))) :=
+  Proofs.MainText.acceptedLeaves_of (by decide +kernel)
+
+/-- An unknown unit is no unit token (it is lexed as a macro name, or a keyword): where the grammar expects
+the unit of an age, anything but a unit token is a syntax error on the line of that token. -/
+theorem C14_error_unknown_unit (cx : PCtx) (s : ParseSt) (t : Tk) (hla : s.la = some t)
+    (ht : ∀ v, t ≠ .scalar (some v)) : parseScalar cx s = .err s.tokLine s :=
+  Proofs.MainText.mt_parseScalar_not_unit cx s t hla ht
+
+/-- The classes are not empty: whole files with these defects are rejected on the expected line, next to
+valid blocks. -/
+example :
+    Proofs.Conf.isErrorAt 2 (parseConfig [] [] (fun _ => true)
+      "stdin { match all discard }\nmaildir \"q\" { match body /a/lu break }".toUTF8.toList) = true ∧
+    Proofs.Conf.isErrorAt 1 (parseConfig [] [] (fun _ => true) "maildir \"q\" { match date > 1 m break }".toUTF8.toList) = true ∧
+    Proofs.Conf.isErrorAt 1 (parseConfig [] [] (fun _ => true) "maildir \"q\" { match date > 1 foo break }".toUTF8.toList) = true ∧
+    Proofs.Conf.isErrorAt 3 (parseConfig [] [] (fun _ => true)
+      "maildir \"q\" {\n match date >\n 4294967296 seconds break }".toUTF8.toList) = true ∧
+    (lex1 true false false " /a/lu x".toUTF8.toList).errors = 1 ∧ (lex1 false true false " m x".toUTF8.toList).errors = 1 := by
   decide +kernel
 
 end Mdsort.Props
